@@ -30,7 +30,10 @@ def classify(case, evs, rej):
     who = pc.ident(case)
     stage = "%s(m%s)" % (rej["after"][0], rej["after"][1])
     if end == "panic":
-        return ("panic", "%s | %s | %s" % (pc.norm_path(last.get("at")), last.get("msg", "")[:70].replace("\n", " "), who),
+        at = pc.norm_path(last.get("at"))
+        # hooks are add-only, so line numbers of /repo shift: the signature is file + message, the line is informative
+        return ("panic", "%s | %s | line %s | %s" % (at.rsplit(":", 1)[0], last.get("msg", "")[:70].replace("\n", " "),
+                                                      at.rsplit(":", 1)[-1], who),
                 "the compiler panicked after %s: %s" % (stage, last.get("msg", "")[:300]))
     if end == "crash":
         return ("crash", "%s signal=%s after=%s | %s | %s" % (last.get("what"), last.get("signal"), stage, pc.tags_of(case), who),
@@ -250,7 +253,7 @@ def run(rep, tier, seed, selftest):
             nontrivial.add(hashlib.sha1(json.dumps([m["src"] for m in cases[cid]["mods"]]).encode()).hexdigest())
         if cid in rejected:
             kind, key, msg = classify(cases[cid], evs, rejected[cid])
-            sig = (kind, key.split(" | ")[0])
+            sig = (kind, " | ".join(key.split(" | ")[:2 if kind in ("panic", "internal") else 1]))
             signatures[sig] = signatures.get(sig, 0) + 1
             if end == "crash" and last.get("what") == "stack overflow":
                 # the worker is built with opt-level 1: decided below on the optimised `penne` binary
